@@ -30,7 +30,7 @@ CFG = {
                   "both write exactly what Close writes from every state. facts_savedValueWrites pins that appIDLast / userCursorStyle / kittyFlags are written only by start-up code. "
                   "The token sequences of the model are compared with the real bytes of start-up/SetAppID/Suspend/Resume/Close, and the real bytes are run through the mode terminal.",
     "level_note": "Prior values: modes Vaxis never queries are assumed reset before start-up, the pointer shape 'text', the cursor style the terminal reports (0 if it does not answer) and the id of its "
-                  "OSC 176 reply are the prior ones; a terminal ignores private modes it did not advertise. Guard assignments are enumerated (m < 512), not quantified as functions. "
+                  "OSC 176 reply are the prior ones; a terminal ignores private modes it did not advertise. balanced_all_guards restates balanced over guard functions (every String -> Bool that is false outside the nine guard variables is one of the 512 assignments: C04Guards.v_eq); the I/O-error returns of Resume (expr: guards) are assumed not taken. "
                   "Sessions: while suspended the application only resumes or shuts down (Resume without Suspend / rendering while suspended are skipped). "
                   "Validated by correspondence only: that the model's token lists are the real bytes (incl. the writer prologue/epilogue and the direct-mapped run-time writes at real values); the signal path "
                   "(Close on the input goroutine) and panic path (an injected malformed report makes handleSequence panic in a child process; recover -> Close -> re-panic) are also exercised dynamically. "
